@@ -89,6 +89,8 @@ _add(
 _add(
     T("fragOffsetUnit", ["C08"], "`IPv4Stream::extract_offset`: bytes per unit of the fragment offset field",
       "src/ip_reassembler.cpp", r"IPv4Stream::extract_offset\s*\(", r"fragment_offset\s*\(\s*\)\s*\*\s*(\d+)", 1),
+    T("reasmMaxDatagram", ["C08"], "`IPv4Stream::allocate_pdu`: largest datagram (header + payload) that is reassembled (RFC 791)",
+      "src/ip_reassembler.cpp", r"IPv4Stream::allocate_pdu\s*\(", r"header_size\s*\(\s*\)\s*\+\s*total_size_\s*>\s*(\d+)", 1),
     P("ipMoreFragments", ["C08"], "`IP::MORE_FRAGMENTS`", "Tins::IP::MORE_FRAGMENTS"),
     P("ipDontFragment", ["C08"], "`IP::DONT_FRAGMENT`", "Tins::IP::DONT_FRAGMENT"),
     P("ipDefaultTtl", ["C08", "Wire"], "`ttl()` of a default-constructed `IP` (`IP::DEFAULT_TTL`)", "ip.ttl()", "Tins::IP ip;"),
